@@ -218,11 +218,11 @@ Section PoolProofs.
     assert (Hch' : p_chunks s ++ [chunk_base n] = map chunk_base (seq 0 (S n))).
     { rewrite seq_snoc, map_app. simpl. rewrite <- Hch. reflexivity. }
     destruct (p_end s - p_it s =? 0) eqn:E0; [apply Z.eqb_eq in E0|apply Z.eqb_neq in E0].
-    - eexists; split; [reflexivity|]. cbn [p_cs p_free p_chunks p_it p_end]. rewrite app_length. simpl length.
+    - eexists; split; [reflexivity|]. cbn [p_cs p_free p_chunks p_it p_end]. rewrite app_length. simpl length. fold n.
       replace (n + 1)%nat with (S n) by lia. rewrite Hcs.
-      repeat (split; [first [assumption|reflexivity]|]).
-      replace (p_it s) with (p_end s) in G by lia. apply good_fresh; assumption.
-    - destruct G as (ND&DJ&AL&H1&H2&H3&H4&H5&H6&H7).
+      do 6 (split; [first [assumption|reflexivity]|]).
+      replace (p_it s) with (p_end s) in G by lia. apply (good_fresh _ (p_end s)); assumption.
+    - pose proof G as G0. destruct G as (ND&DJ&AL&H1&H2&H3&H4&H5&H6&H7).
       set (r := p_end s - p_it s) in *.
       assert (Hr : 0 < r) by lia.
       assert (Hk : (Z.to_nat (r / EA) < length (p_free s))%nat).
@@ -230,11 +230,11 @@ Section PoolProofs.
         - pose proof (Z.div_pos MAXB EA ltac:(lia) ltac:(lia)). lia.
         - pose proof (Z.div_le_mono r MAXB EA ltac:(lia) Hrem). lia. }
       destruct (fl_push_some (p_free s) _ (p_it s) Hk) as (fl'&Efl). rewrite Efl.
-      eexists; split; [reflexivity|]. cbn [p_cs p_free p_chunks p_it p_end]. rewrite app_length. simpl length.
+      eexists; split; [reflexivity|]. cbn [p_cs p_free p_chunks p_it p_end]. rewrite app_length. simpl length. fold n.
       replace (n + 1)%nat with (S n) by lia. rewrite Hcs.
       split; [reflexivity|]. split; [rewrite (fl_push_length _ _ _ _ Efl); assumption|].
       split; [assumption|]. split; [reflexivity|]. split; [reflexivity|]. split; [reflexivity|].
-      apply good_fresh; [|assumption|assumption].
+      apply (good_fresh _ (p_end s)); [|assumption|assumption].
       assert (Hsz : Z.of_nat (0 + Z.to_nat (r / EA)) * EA = r).
       { rewrite Nat.add_0_l, Z2Nat.id by (apply Z.div_pos; lia).
         pose proof (Z.div_mod r EA ltac:(lia)). rewrite H3 in H. lia. }
@@ -244,7 +244,7 @@ Section PoolProofs.
         apply Permutation_sym. eapply Permutation_trans; [apply Permutation_app_head; exact P|].
         apply Permutation_sym. apply Permutation_middle.
       + replace (p_end s) with (p_it s + r) at 1 by (unfold r; lia).
-        apply good_bump; [repeat split; assumption|lia|assumption|unfold r; lia].
+        apply good_bump; [exact G0|lia|assumption|unfold r; lia].
   Qed.
 
   Lemma allocate_ok s live bytes alignment : pool_inv (s, live) -> 0 <= bytes ->
@@ -272,12 +272,12 @@ Section PoolProofs.
         { destruct (p_end s - p_it s <? round) eqn:E1; [apply Z.ltb_lt in E1|apply Z.ltb_ge in E1].
           - destruct (allocate_chunk_ok s (live_blocks live) Hcs ltac:(lia) HCSm Hfl Hch G ltac:(lia))
               as (s1&E&A1&A2&A3&A4&A5&A6&A7).
-            exists s1. repeat (split; [assumption|]). rewrite A5, A6. lia.
-          - exists s. repeat (split; [first [assumption|reflexivity]|]). assumption. }
+            exists s1. do 5 (split; [assumption|]). rewrite A5, A6. lia.
+          - exists s. do 5 (split; [first [assumption|reflexivity]|]). assumption. }
         destruct H1 as (s1&E&A1&A2&A3&A4&A5). rewrite E.
         eexists; eexists; split; [reflexivity|]. split; [|split; [intros _; eexists; reflexivity|discriminate]].
         unfold pool_inv. cbn [p_cs p_free p_chunks p_it p_end].
-        repeat (split; [assumption|]). split.
+        do 5 (split; [assumption|]). split.
         * rewrite live_blocks_app. simpl. rewrite Eu. fold round.
           apply good_perm with (B := (p_it s1, round) :: live_blocks live ++ free_blocks s1).
           -- unfold ContPool.free_blocks. cbn [p_free]. rewrite <- app_assoc. simpl. apply Permutation_middle.
@@ -295,7 +295,7 @@ Section PoolProofs.
           apply Permutation_app_head. exact P.
         * apply Forall_app. split; [assumption|]. constructor; [|constructor]. simpl. split; [assumption|]. intros _. eexists; reflexivity.
     - eexists; eexists; split; [reflexivity|]. split; [|split; [discriminate|auto]].
-      unfold pool_inv. repeat (split; [assumption|]). split.
+      unfold pool_inv. do 5 (split; [assumption|]). split.
       + rewrite live_blocks_app. simpl. rewrite app_nil_r. assumption.
       + apply Forall_app. split; [assumption|]. constructor; [|constructor]. simpl. split; [assumption|]. rewrite Eu. discriminate.
   Qed.
@@ -334,10 +334,9 @@ Section PoolProofs.
       rewrite Hsplit at 1. rewrite !live_blocks_app. simpl. rewrite Eu.
       unfold ContPool.free_blocks. cbn [p_free]. rewrite <- !app_assoc. simpl.
       apply Permutation_app_head.
-      eapply Permutation_trans; [apply Permutation_sym; apply Permutation_middle|].
-      apply Permutation_sym. eapply Permutation_trans; [apply Permutation_app_head; exact P|].
-      apply Permutation_sym. apply Permutation_middle.
-    - exists s. split; [reflexivity|]. unfold pool_inv. repeat (split; [assumption|]). split; [|assumption].
+      eapply Permutation_trans; [apply Permutation_middle|].
+      apply Permutation_app_head. apply Permutation_sym. exact P.
+    - exists s. split; [reflexivity|]. unfold pool_inv. do 5 (split; [assumption|]). split; [|assumption].
       rewrite Hsplit in G at 1. rewrite !live_blocks_app in G. simpl in G.
       rewrite live_blocks_app.
       destruct p; [rewrite Eu in G|]; exact G.
@@ -380,7 +379,8 @@ Section PoolProofs.
       destruct (allocate s bytes alignment) as [[r s']|]; [|discriminate]. intros H; injection H as <-. simpl.
       rewrite app_length. simpl. lia.
     - destruct (nth_error live i) as [[[p bytes] alignment]|] eqn:E; [|discriminate].
-      destruct (deallocate s p bytes alignment); [|discriminate]. intros H; injection H as <-. simpl.
+      destruct (deallocate s p bytes alignment); [|discriminate]. intros H; injection H as <-. cbn [snd].
+      change (length (firstn i live ++ skipn (S i) live) = (length live - 1)%nat).
       assert (i < length live)%nat by (apply nth_error_Some; congruence).
       rewrite app_length, firstn_length, skipn_length. lia.
   Qed.
@@ -409,6 +409,15 @@ Section PoolProofs.
   Lemma in_app_l' (A : Type) (x : A) l1 l2 : In x l1 -> In x (l1 ++ l2).
   Proof. intros; apply in_or_app; auto. Qed.
 
+  Lemma nodup_app (A : Type) (l1 l2 : list A) : NoDup (l1 ++ l2) -> NoDup l1 /\ forall x, In x l1 -> ~ In x l2.
+  Proof.
+    induction l1 as [|z l1 IH]; simpl; intros H.
+    - split; [constructor|intros x []].
+    - inversion H as [|? ? Hn Hd]; subst. destruct (IH Hd) as [N D]. split.
+      + constructor; [intro Hin; apply Hn; apply in_or_app; auto|exact N].
+      + intros x [<-|Hx] Hin; [apply Hn; apply in_or_app; auto|exact (D x Hx Hin)].
+  Qed.
+
   Theorem pool_inv_meaning s live : pool_inv (s, live) ->
     (* live allocations never overlap (nor coincide) *)
     NoDup (live_blocks live) /\
@@ -424,18 +433,75 @@ Section PoolProofs.
       = Z.of_nat (length (p_chunks s)) * CS.
   Proof.
     intros (Hcs&HM&HCSm&Hfl&Hch&G&Hent). destruct G as (ND&DJ&AL&H1&H2&H3&H4&H5&H6&H7).
-    split; [apply NoDup_app_remove_r in ND; exact ND|].
+    destruct (nodup_app _ _ _ ND) as [ND1 ND2].
+    split; [exact ND1|].
     split; [intros x y Hx Hy; apply DJ; apply in_app_l'; assumption|].
     split.
     - intros b Hb. destruct (AL b (in_app_l' _ _ _ _ Hb)) as (a1&a2&a3&a4&a5).
       repeat (split; [assumption|]). intros f Hf. apply DJ; [apply in_app_l'; assumption|apply in_or_app; right; assumption|].
-      intros ->. apply NoDup_remove_2 in ND || idtac.
-      clear - ND0 Hb Hf || idtac.
-      revert Hb Hf. clear - ND. intros Hb Hf.
-      induction (live_blocks live) as [|z l IH]; [destruct Hb|].
-      simpl in ND. inversion ND; subst. destruct Hb as [->|Hb].
-      + apply H1. apply in_or_app. right. exact Hf.
-      + apply IH; assumption.
+      intros ->. exact (ND2 f Hb Hf).
     - rewrite map_app, zsum_app in H7. lia.
+  Qed.
+
+  (* the constructor establishes the invariant (CS is the rounded chunk size it computes) *)
+  Lemma pool_new_ok chunk_size_bytes s : CS = num chunk_size_bytes * EA ->
+    pool_new chunk_size_bytes = Some s -> pool_inv (s, []).
+  Proof.
+    intros HCS. pose proof EA_pos as HE. unfold ContPool.pool_new. rewrite <- HCS.
+    destruct (MAXB <=? CS) eqn:E; [apply Z.leb_le in E|discriminate].
+    unfold ContPool.allocate_chunk. cbn [p_cs p_free p_chunks p_it p_end]. simpl.
+    intros H; injection H as <-. unfold pool_inv. cbn [p_cs p_free p_chunks p_it p_end].
+    assert (HCSm : CS mod EA = 0) by (rewrite HCS; apply Z.mod_mul; lia).
+    split; [reflexivity|]. split; [assumption|]. split; [assumption|].
+    split; [apply repeat_length|]. split; [reflexivity|]. split; [|constructor].
+    unfold ContPool.free_blocks. cbn [p_free]. rewrite fb_repeat_nil. cbn [app length].
+    unfold good. split; [constructor|]. split; [intros x y []|]. split; [intros b []|].
+    split; [lia|]. split; [apply Hbase_aligned|]. split.
+    { replace (chunk_base 0 + CS - chunk_base 0) with CS by lia. assumption. }
+    split; [lia|]. split; [reflexivity|]. split; [simpl; lia|]. cbn [map zsum length]. change (Z.of_nat 1) with 1. lia.
+  Qed.
+
+  (* the block reserved for a pooled request is large enough for it *)
+  Lemma request_fits bytes alignment : 0 <= bytes -> usable bytes alignment = true ->
+    bytes <= num bytes * EA /\ num bytes * EA <= MAXB /\ 1 <= num bytes.
+  Proof.
+    intros Hb Eu. assert (Hb2 : bytes <= MAXB).
+    { unfold ContPool.is_free_list_usable in Eu. apply andb_true_iff in Eu. destruct Eu as [_ Eu]. apply Z.leb_le in Eu. exact Eu. }
+    destruct (num_facts bytes Hb Hb2) as (N1&N2&N3&N4&N5). auto.
+  Qed.
+
+  (* freed blocks are reused only for the same size class: Allocate takes a block from a free list only from
+     the list of exactly the requested class, where it is recorded with exactly the rounded size; Deallocate
+     files a block under the class of the size it is returned with *)
+  Lemma alloc_reuse_same_class s bytes alignment a next : 0 <= bytes -> usable bytes alignment = true ->
+    nth_error (p_free s) (Z.to_nat (num bytes)) = Some (a :: next) ->
+    allocate s bytes alignment =
+      Some (Pooled a, mkpool (p_cs s) (p_chunks s) (ContPool.fl_set (p_free s) (Z.to_nat (num bytes)) next) (p_it s) (p_end s)) /\
+    In (a, num bytes * EA) (free_blocks s).
+  Proof.
+    intros Hb Eu El. unfold ContPool.allocate. rewrite Eu, El. split; [reflexivity|].
+    destruct (request_fits bytes alignment Hb Eu) as (_&_&N1).
+    pose proof (fb_pop 0 _ _ _ _ El) as P. rewrite Nat.add_0_l, Z2Nat.id in P by lia.
+    unfold ContPool.free_blocks. eapply Permutation_in; [apply Permutation_sym; exact P|]. left. reflexivity.
+  Qed.
+
+  Lemma alloc_fresh_when_class_empty s bytes alignment r s' : usable bytes alignment = true ->
+    nth_error (p_free s) (Z.to_nat (num bytes)) = Some [] ->
+    allocate s bytes alignment = Some (r, s') -> p_free s' = p_free s \/ exists s1, allocate_chunk s = Some s1 /\ p_free s' = p_free s1.
+  Proof.
+    intros Eu El. unfold ContPool.allocate. rewrite Eu, El.
+    destruct (p_end s - p_it s <? num bytes * EA).
+    - destruct (allocate_chunk s) as [s1|] eqn:E; [|discriminate]. intros H; injection H as <- <-. right. exists s1. auto.
+    - intros H; injection H as <- <-. left. reflexivity.
+  Qed.
+
+  Lemma dealloc_same_class s a bytes alignment s' : 0 <= bytes -> usable bytes alignment = true ->
+    deallocate s (Pooled a) bytes alignment = Some s' ->
+    Permutation (free_blocks s') ((a, num bytes * EA) :: free_blocks s).
+  Proof.
+    intros Hb Eu. unfold ContPool.deallocate. rewrite Eu.
+    destruct (ContPool.fl_push (p_free s) (Z.to_nat (num bytes)) a) as [fl|] eqn:E; [|discriminate].
+    intros H; injection H as <-. destruct (request_fits bytes alignment Hb Eu) as (_&_&N1).
+    pose proof (fb_push 0 _ _ _ _ E) as P. rewrite Nat.add_0_l, Z2Nat.id in P by lia. exact P.
   Qed.
 End PoolProofs.
